@@ -91,7 +91,7 @@ def idiom_rules(ctx, index, rule):
             init0 = _layout.offset_initialised_to_zero(fi.node, loop, start)
             ctx.require(ok and init0, rule, f"{fi.short}: running offsets over `{norm_text(loop.iter)}`", "start = 0; end = start + width(element); start = end",
                         (why or "") + ("" if init0 else f"; `{start}` is not initialised to 0 before the loop"), fi.loc(loop))
-    ctx.floor("running-offset loops", n, 1)
+    # (no floor: code that cuts the axes with torch.split / narrow over prefix sums has no running-offset loop; those sites are decided by the layout rules)
 
 
 def single_pass_rule(ctx, index, rule, entry_fn):
